@@ -9,6 +9,7 @@ import CkbVerif.Lemmas.HashCbmtArray
 import CkbVerif.Lemmas.HashProofTop
 import CkbVerif.Lemmas.HashProofFuel
 import CkbVerif.Lemmas.MolSize
+import CkbVerif.Lemmas.JsonMap
 /-!
 # C15 — wire and storage encodings round-trip losslessly and hashes commit to content
 
@@ -875,6 +876,53 @@ theorem serialized_size_constants : uncleSizeInBlock = 228 ∧ proposalShortIdSi
 example : txSizeInBlock [1, 2, 3] = 7 := rfl
 
 end serialized_size
+
+/-! ### JSON ↔ packed field maps (`util/jsonrpc-types/src/blockchain.rs`), over the table REGENERATED on every run -/
+
+section json_field_maps
+open CkbVerif.JsonMap CkbVerif.Gen.JsonMap
+
+/-- **the generated field maps keep the discipline** (re-checked against the regenerated `Gen/JsonMap.lean` on every
+run): for Script, OutPoint, CellInput, CellOutput, CellDep, Transaction, Header, UncleBlock, Block — every declared
+packed field (Transaction / Header: through `raw`) and the optional `Block.extension` is read by exactly one json
+field in `From<packed::X> for X`; every field of the json struct is set exactly once; every builder branch of
+`From<X> for packed::X` writes every declared packed field exactly once, from exactly the json field that read it and
+with the same conversion kind, consuming distinct json fields; `Block` has one branch that writes the extension
+(`BlockV1 … as_v0()`) and one that does not.  A conversion that drops, duplicates or crosses a field breaks this. -/
+theorem generated_json_maps_ok : ∀ t ∈ CkbVerif.Gen.JsonMap.all, mapOk t = true := by decide +kernel
+
+/-- the nine types are all in the table (an impl the translator cannot read makes the translator fail, not shrink) -/
+theorem generated_json_maps_cover :
+    CkbVerif.Gen.JsonMap.all.map (·.name) = ["Script", "OutPoint", "CellInput", "CellOutput", "CellDep", "Transaction", "Header", "UncleBlock", "Block"] := by
+  decide +kernel
+
+/-- **the two directions are mutually inverse at the field-map level, for EVERY map with the discipline** and every
+record: a backward branch applied after the forward map returns, at every packed field the branch writes, the value the
+packed record had there -/
+theorem json_field_map_roundtrip_general {V : Type} (dflt : V) (t : TypeMap) (hok : mapOk t = true)
+    (b : String × List Entry) (hb : b ∈ t.back) (rec : String → V) (p : String) (hp : p ∈ branchTargets t b.2) :
+    applyBack dflt b.2 (applyFwd dflt t.fwd rec) p = rec p :=
+  back_after_fwd dflt t hok b hb rec p hp
+
+/-- … in particular for every generated type, every branch, every record and every field -/
+theorem json_field_map_roundtrip {V : Type} (dflt : V) (t : TypeMap) (ht : t ∈ CkbVerif.Gen.JsonMap.all)
+    (b : String × List Entry) (hb : b ∈ t.back) (rec : String → V) (p : String) (hp : p ∈ branchTargets t b.2) :
+    applyBack dflt b.2 (applyFwd dflt t.fwd rec) p = rec p :=
+  back_after_fwd dflt t (generated_json_maps_ok t ht) b hb rec p hp
+
+/-- the extension of a block: the `BlockV1` branch must write it, the `Block` branch must not -/
+theorem block_extension_branches :
+    mBlock.back.map (fun b => (b.1, branchTargets mBlock b.2)) =
+      [("BlockV1", ["header", "uncles", "transactions", "proposals", "extension"]),
+       ("Block", ["header", "uncles", "transactions", "proposals"])] := by decide +kernel
+
+-- a table that loses, duplicates or crosses a field does not have the discipline
+example : mapOk { mScript with fwd := mScript.fwd.drop 1 } = false := by decide +kernel
+example : mapOk { mHeader with back := [("Header", mHeader.fwd.drop 1)] } = false := by decide +kernel
+example : mapOk { mOutPoint with fwd := [⟨"tx_hash", "index", "hash"⟩, ⟨"index", "tx_hash", "uint"⟩] } = false := by decide +kernel
+example : applyBack 0 mOutPoint.fwd (applyFwd 0 mOutPoint.fwd (fun p => p.length)) "tx_hash" = 7 := by decide +kernel
+
+end json_field_maps
 
 /-! ### JSON scalars (`JsonUint<T>`, `JsonBytes`) -/
 
